@@ -67,6 +67,8 @@ type Frame struct {
 	heapIn     Heap
 	entryReach string
 	curQual    string
+	instrOrd   map[ssa.Instruction]int
+	curInstr   ssa.Instruction
 	qualOrd    map[string]int
 	secHeap    Heap // heap right after the last "havoc" site clause (start of the critical section)
 	unrolling  map[int]bool
@@ -839,9 +841,11 @@ func (fr *Frame) rpo() []*ssa.BasicBlock {
 
 func (fr *Frame) collectNames() {
 	ord := 0
+	fr.instrOrd = map[ssa.Instruction]int{}
 	for _, b := range fr.fn.Blocks {
 		for _, in := range b.Instrs {
 			ord++
+			fr.instrOrd[in] = ord
 			switch x := in.(type) {
 			case *ssa.DebugRef:
 				if id, ok := x.Expr.(*ast.Ident); ok {
@@ -860,6 +864,11 @@ func (fr *Frame) collectNames() {
 
 // resolve a source-level variable name at (the start of) block at
 func (fr *Frame) lookupName(name string, at *ssa.BasicBlock, atEnd bool) (ssa.Value, bool, bool) {
+	return fr.lookupNameAt(name, at, atEnd, 0)
+}
+
+// maxOrd > 0: bindings made in block 'at' after that instruction are not visible yet
+func (fr *Frame) lookupNameAt(name string, at *ssa.BasicBlock, atEnd bool, maxOrd int) (ssa.Value, bool, bool) {
 	for _, p := range fr.fn.Params {
 		if p.Name() == name {
 			// may be shadowed by a later phi of the same name
@@ -881,7 +890,7 @@ func (fr *Frame) lookupName(name string, at *ssa.BasicBlock, atEnd bool) (ssa.Va
 		nb := &fr.names[name][i]
 		ok := false
 		if nb.block == at {
-			ok = atEnd
+			ok = atEnd && (maxOrd == 0 || nb.order < maxOrd)
 			if _, isPhi := nb.v.(*ssa.Phi); isPhi {
 				ok = true
 			}
@@ -1087,6 +1096,21 @@ func (fr *Frame) enterLoop(li *loopInfo) {
 		vc.havocMap(&fr.heap, m)
 	}
 	vc.havocMap(&fr.heap, "$alloc")
+	// path counters of calls are not loop invariant (only those of callees that can run inside the loop)
+	inLoop := map[string]bool{}
+	for _, b := range fr.fn.Blocks {
+		if li.body[b.Index] {
+			fr.vc.e.calledNames(b, inLoop, map[*ssa.Function]bool{}, 0)
+		}
+	}
+	for name := range vc.mapSorts {
+		if strings.HasPrefix(name, "$calls_") && (inLoop["*"] || inLoop[strings.TrimPrefix(name, "$calls_")]) {
+			old := vc.hget(fr.heap, name)
+			n := vc.free(name, "Int")
+			vc.setRng(n, sApp("<=", old, n))
+			fr.heap.m[name] = n
+		}
+	}
 	for _, in := range li.head.Instrs {
 		ph, ok := in.(*ssa.Phi)
 		if !ok {
@@ -1253,11 +1277,13 @@ func (fr *Frame) block(b *ssa.BasicBlock, ov *headOverride) {
 		if _, ok := in.(*ssa.Phi); ok {
 			continue
 		}
+		fr.curInstr = in
 		fr.instr(in)
 		if fr.panicked {
 			break
 		}
 	}
+	fr.curInstr = nil
 	fr.exitHeap[b.Index] = fr.heap
 	if fr.panicked {
 		for _, s := range b.Succs {
@@ -1692,4 +1718,52 @@ func mergeDigits(a, b []string) []string {
 		}
 	}
 	return out
+}
+
+// names (short and Type__Method) of every callee that may execute when block b runs, through inlinable callees
+func (e *Engine) calledNames(b *ssa.BasicBlock, out map[string]bool, seen map[*ssa.Function]bool, depth int) {
+	for _, in := range b.Instrs {
+		var cc *ssa.CallCommon
+		switch x := in.(type) {
+		case *ssa.Call:
+			cc = x.Common()
+		case *ssa.Defer:
+			cc = x.Common()
+		}
+		if cc == nil {
+			continue
+		}
+		if cc.IsInvoke() {
+			out[cc.Method.Name()] = true
+			key := "(" + normName(types.TypeString(cc.Value.Type(), nil)) + ")." + cc.Method.Name()
+			out[strings.ReplaceAll(calleeQual(key), ".", "__")] = true
+			continue
+		}
+		var f *ssa.Function
+		switch v := cc.Value.(type) {
+		case *ssa.Function:
+			f = v
+		case *ssa.MakeClosure:
+			f, _ = v.Fn.(*ssa.Function)
+		case *ssa.Builtin:
+			continue
+		default:
+			out["*"] = true
+			continue
+		}
+		if f == nil {
+			continue
+		}
+		n := fnName(f)
+		out[calleeShort(n)] = true
+		out[strings.ReplaceAll(calleeQual(n), ".", "__")] = true
+		c := e.contracts[n]
+		modular := c != nil && !c.Inline && (len(c.Requires) > 0 || len(c.Ensures) > 0 || len(c.Assumes) > 0 || c.ModGiven || c.External || c.Trusted != "")
+		if !modular && f.Blocks != nil && isInRepo(f) && !seen[f] && depth < 8 {
+			seen[f] = true
+			for _, bb := range f.Blocks {
+				e.calledNames(bb, out, seen, depth+1)
+			}
+		}
+	}
 }
